@@ -20,7 +20,9 @@ Definition builtin_exc_bases : list (string * list string) :=
    ("GPlain", ["GlomError"]); ("GAttr", ["GlomError"]); ("GArity", ["GlomError"]); ("GPrefix", ["GlomError"]); ("GKwOnly", ["GlomError"]);
    ("GPathSub", ["PathAccessError"]); ("GMatchSub", ["MatchError"]);
    (* three distinct classes sharing one __name__: the model identifies a class by its catalogue name, i.e. by the class object *)
-   ("UTwinA", ["Exception"]); ("UTwinB", ["Exception"]); ("UTwinK", ["KeyError"])].
+   ("UTwinA", ["Exception"]); ("UTwinB", ["Exception"]); ("UTwinK", ["KeyError"]);
+   (* UFlakyBad is not a class of its own: it names the instances of UFlaky that cannot be rebuilt from their args *)
+   ("UFlaky", ["Exception"]); ("UFlakyBad", ["UFlaky"])].
 
 Definition exc_bases : list (string * list string) := glom_exc_bases ++ builtin_exc_bases.
 
